@@ -140,12 +140,15 @@ class Modes(Stream):
         from harness.props.C11 import fix_relative
         for i in range(n):
             src = fix_relative(sg.equalize(sg.rand_score(rng, max_chords=3, rel=0.1 if i % 2 else 0.0, accs=False, systems="sssshh")))
-            yield {"src": src, "tgt": rand_target(rng), "keep_pitch": i % 2 == 1}
+            case = {"src": src, "tgt": rand_target(rng), "keep_pitch": i % 2 == 1}
+            if i % 6 >= 4:
+                case["repeat"] = True        # repeat_to_duration=True: a source shorter than the target is repeated first
+            yield case
 
     def impl(self, case):
         def f():
             s, g = sg.mk_rscore(case["src"]), sg.mk_rscore(case["tgt"])
-            res = s.project_on_score(g, keep_pitch=case["keep_pitch"])
+            res = s.project_on_score(g, keep_pitch=case["keep_pitch"], **({"repeat_to_duration": True} if case.get("repeat") else {}))
             return {"chords": [chord_key(c) for c in sg.read_score(res)], "dur": F(res.duration), "sdur": F(s.duration), "gdur": F(g.duration),
                     "sound": sounding(res), "src_sound": sounding(s)}
         return mlang.guarded(f)
@@ -156,6 +159,21 @@ class Modes(Stream):
                 return None          # relative-pitch window of C09
             return {"sig": "projection-raises:" + ("keep_pitch" if case["keep_pitch"] else "default"), "msg": str(r)}
         want_dur = min(r["sdur"], r["gdur"])
+        if case.get("repeat") and r["sdur"] < r["gdur"]:
+            # the source may have been repeated: the result lasts the source or the target, its chords are the target's, and every
+            # note that starts where a source note starts (modulo the source length) has, with keep_pitch, that note's pitch
+            if r["dur"] not in (r["sdur"], r["gdur"]):
+                return {"sig": "projection-duration:repeat", "msg": f"{r['dur']} vs {r['sdur']} or {r['gdur']}"}
+            if r["chords"] != [chord_key(c) for c in case["tgt"]][:len(r["chords"])]:
+                return {"sig": "projection-chords:repeat", "msg": str(r["chords"])}
+            if case["keep_pitch"] and r["sdur"] > 0:
+                for nm, evs in r["src_sound"].items():
+                    at = {x[1]: x[0] for x in evs}
+                    for x in r["sound"].get(nm, []):
+                        w = at.get(x[1] % r["sdur"])
+                        if w is not None and w != x[0]:
+                            return {"sig": "projection-keep-pitch:repeat", "msg": f"part {nm} at {x[1]}: pitch {x[0]}, the source plays {w} there"}
+            return None
         if r["dur"] != want_dur:
             return {"sig": "projection-duration", "msg": f"{r['dur']} vs {want_dur}"}
         if r["chords"] != [chord_key(c) for c in case["tgt"]][:len(r["chords"])]:
@@ -170,7 +188,7 @@ class Modes(Stream):
         return None
 
     def hist_keys(self, case, r):
-        return ["keep_pitch" if case["keep_pitch"] else "default"]
+        return [("keep_pitch" if case["keep_pitch"] else "default") + (":repeat" if case.get("repeat") else "")]
 
     def shrink(self, case):
         from harness.props.C11 import fix_relative
